@@ -676,6 +676,35 @@ example : defaultLevel ['_', 'x'] = .priv ∧ defaultLevel ['_', '_', 'x', '_', 
     defaultLevel ['x'] = .pub ∧ defaultLevel ['_', '_', 'x'] = .priv ∧ defaultLevel ['_'] = .priv ∧
     defaultLevel ['_', '_'] = .pub ∧ defaultLevel ['_', '_', '_'] = .pub := by decide
 
+/-- **The whole default** (as customize.rst states it since c8d85b0): PRIVATE for a name with a
+leading underscore that is not a dunder, and for a module named `__main__`; PUBLIC otherwise. -/
+theorem defaultOf_meaning (ob : Obj) :
+    defaultOf ob = .priv ↔
+      ((['_'] <+: ob.name ∧ ¬ (['_', '_'] <+: ob.name ∧ ['_', '_'] <:+ ob.name)) ∨
+        (ob.isModule = true ∧ ob.name = mainName)) := by
+  rw [← default_meaning]
+  simp only [defaultOf]
+  by_cases h1 : defaultLevel ob.name = .priv
+  · simp [h1]
+  · by_cases h2 : (ob.isModule && ob.name = mainName) = true
+    · simp only [h1, if_false, h2, if_true, false_or, true_iff]
+      simpa using h2
+    · simp only [h1, if_false, h2, false_or]
+      constructor
+      · intro h; cases h
+      · intro h; exact absurd (by simpa using h) h2
+
+theorem defaultOf_pub_or_priv (ob : Obj) : defaultOf ob = .priv ∨ defaultOf ob = .pub := by
+  simp only [defaultOf]
+  split
+  · exact Or.inl rfl
+  · split
+    · exact Or.inl rfl
+    · exact Or.inr rfl
+
+example : defaultOf ⟨['p', '.'] ++ mainName, mainName, true, false, true⟩ = .priv ∧
+    defaultOf ⟨['C', '.'] ++ mainName, mainName, false, false, true⟩ = .pub := by decide
+
 theorem findExact_append (xs : List Rule) (r : Rule) (ys : List Rule) (fn : List Char)
     (hx : ∀ x ∈ xs, x.pat ≠ fn) (hr : r.pat = fn) :
     findExact (xs ++ r :: ys) fn = some r.level := by
@@ -737,7 +766,7 @@ theorem last_pattern_wins (pre post : List Rule) (r : Rule) (ob : Obj)
 /-- **No rule applies: the default.** -/
 theorem default_applies (rules : List Rule) (ob : Obj)
     (h : ∀ x ∈ rules, x.pat ≠ ob.fullName ∧ Glob.qnmatch ob.fullName x.pat = .ok false) :
-    decide rules ob = .ok (defaultLevel ob.name) := by
+    decide rules ob = .ok (defaultOf ob) := by
   have hn := findExact_none rules.reverse ob.fullName (fun x hx => (h x (List.mem_reverse.mp hx)).1)
   have hp := findPattern_none rules.reverse ob.fullName (fun x hx => (h x (List.mem_reverse.mp hx)).2)
   simp [decide, hn, hp]
@@ -753,14 +782,14 @@ example : decide [⟨.hidden, ['x', '.', '*']⟩] ⟨['m', '.', '_', 'a'], ['_',
 
 /-- The property's statement, written on its own: the last rule whose text is the qualified name;
 failing that the last rule whose pattern matches (in the manual's sense); failing that the
-default. -/
+default (`defaultOf`: underscore rule, modules named `__main__`). -/
 def specLevel (rules : List Rule) (ob : Obj) : Level :=
   match (rules.filter (fun r => r.pat = ob.fullName)).getLast? with
   | some r => r.level
   | none =>
     match (rules.filter (fun r => Glob.spec r.pat ob.fullName)).getLast? with
     | some r => r.level
-    | none => defaultLevel ob.name
+    | none => defaultOf ob
 
 theorem findExact_eq (rs : List Rule) (fn : List Char) :
     findExact rs fn = ((rs.filter (fun r => r.pat = fn)).head?).map (·.level) := by
@@ -788,21 +817,20 @@ theorem findPattern_eq (rs : List Rule) (fn : List Char)
     | false => simp [findPattern, hq, hs, ih']
 
 /-
-Full statement, false of the current code:
+Full statement, false of the current code for rule lists written into `options.privacy` by hand:
     ∀ rules ob, ob.kindNone = false → (privacyClass rules [] ob).1 = .ok (specLevel rules ob)
-It fails (a) when a rule's pattern holds a backwards range and is reached (`re.error` escapes from
-`System.privacyClass`), and (b) for a module named `__main__`, whose `privacyClass` is PRIVATE
-whatever the rules say.
+It fails when a rule's pattern holds a backwards range and is reached (`re.error` escapes from
+`System.privacyClass`).  (Until c8d85b0 it also failed for a module named `__main__`:
+`main_module_counterexample_before_c8d85b0`.)
 -/
-/-- **Precedence, as a whole.**  With rule patterns that `re` accepts, and for any object other
-than a module named `__main__`, the privacy class computed is the one the property states. -/
+/-- **Precedence, as a whole.**  With rule patterns that `re` accepts the privacy class computed is
+the one the property states, for every object that has a kind — modules named `__main__` included. -/
 theorem precedence_partial (rules : List Rule) (ob : Obj)
-    (hw : ∀ x ∈ rules, Glob.wellFormed x.pat = true)
-    (hmain : (ob.isModule && ob.name = mainName) = false) (hk : ob.kindNone = false) :
+    (hw : ∀ x ∈ rules, Glob.wellFormed x.pat = true) (hk : ob.kindNone = false) :
     (privacyClass rules [] ob).1 = .ok (specLevel rules ob) := by
   have hw' : ∀ x ∈ rules.reverse, Glob.wellFormed x.pat = true :=
     fun x hx => hw x (List.mem_reverse.mp hx)
-  simp only [privacyClass, hmain, systemPrivacyClass, lookup, hk, decide, findExact_eq,
+  simp only [privacyClass, systemPrivacyClass, lookup, hk, decide, findExact_eq,
     findPattern_eq _ _ hw', List.filter_reverse, List.head?_reverse, specLevel]
   cases (rules.filter (fun r => r.pat = ob.fullName)).getLast? with
   | some r => simp
@@ -815,12 +843,19 @@ theorem precedence_counterexample :
     (privacyClass [⟨.hidden, ['[', 'b', '-', 'a', ']']⟩] [] ⟨['a'], ['a'], false, false, true⟩).1
       = .err .reError := by decide
 
-theorem main_module_counterexample :
+/-- a rule now reaches a module named `__main__` … -/
+theorem main_module_rule_applies :
     (privacyClass [⟨.hidden, ['p', '.'] ++ mainName⟩] [] ⟨['p', '.'] ++ mainName, mainName, true, false, true⟩).1
+        = .ok .hidden ∧
+    (privacyClass [] [] ⟨['p', '.'] ++ mainName, mainName, true, false, true⟩).1 = .ok .priv := by decide
+
+/-- … historical: before c8d85b0 `HIDDEN:p.__main__` left `p.__main__` PRIVATE (finding
+`main-module:rule-ignored`, fixed) -/
+theorem main_module_counterexample_before_c8d85b0 :
+    privacyClassBefore_c8d85b0 [⟨.hidden, ['p', '.'] ++ mainName⟩] ⟨['p', '.'] ++ mainName, mainName, true, false, true⟩
         = .ok .priv ∧
       specLevel [⟨.hidden, ['p', '.'] ++ mainName⟩] ⟨['p', '.'] ++ mainName, mainName, true, false, true⟩
         = .hidden := by decide
-
 
 /-! ### rule lists that come from the command line
 
@@ -873,18 +908,13 @@ theorem cli_rules_wellFormed : ∀ (vs : List (List Char)) (rules : List Rule),
         · exact parseRule_wellFormed v x hv
         · exact cli_rules_wellFormed vs rs hvs x hx
 
-/-
-Full statement, still false of the current code (open finding `main-module:*`):
-    parseRules vs = .ok rules → ob.kindNone = false →
-      (privacyClass rules [] ob).1 = .ok (specLevel rules ob)
--/
-/-- **Precedence for every `--privacy` list the option parser accepts**: no hypothesis on the
-patterns any more; only modules named `__main__` stay excluded. -/
-theorem precedence_cli_partial (vs : List (List Char)) (rules : List Rule) (ob : Obj)
-    (h : parseRules vs = .ok rules)
-    (hmain : (ob.isModule && ob.name = mainName) = false) (hk : ob.kindNone = false) :
+/-- **Precedence for every `--privacy` list the option parser accepts**, at full strength: no
+hypothesis on the patterns, no excluded object (objects without a kind are not documented at all:
+`kind is None` → HIDDEN before any rule). -/
+theorem precedence_cli (vs : List (List Char)) (rules : List Rule) (ob : Obj)
+    (h : parseRules vs = .ok rules) (hk : ob.kindNone = false) :
     (privacyClass rules [] ob).1 = .ok (specLevel rules ob) :=
-  precedence_partial rules ob (cli_rules_wellFormed vs rules h) hmain hk
+  precedence_partial rules ob (cli_rules_wellFormed vs rules h) hk
 
 /-- **With a `--privacy` list the option parser accepts, `privacyClass` never raises** — for any
 object and any cache state (the `re.error` of the former finding is unreachable from the CLI). -/
@@ -893,8 +923,6 @@ theorem cli_never_raises (vs : List (List Char)) (rules : List Rule) (h : parseR
   have hw : ∀ x ∈ rules.reverse, Glob.wellFormed x.pat = true :=
     fun x hx => cli_rules_wellFormed vs rules h x (List.mem_reverse.mp hx)
   simp only [privacyClass]
-  split
-  · exact ⟨_, rfl⟩
   · simp only [systemPrivacyClass]
     split
     · exact ⟨_, rfl⟩
@@ -942,7 +970,7 @@ def Coherent (U : List Obj) : Prop :=
 theorem privacyClass_congr (rules : List Rule) (a b : Obj) (hf : a.fullName = b.fullName)
     (hn : a.name = b.name) (hm : a.isModule = b.isModule) (hk : a.kindNone = b.kindNone) :
     (privacyClass rules [] a).1 = (privacyClass rules [] b).1 := by
-  simp only [privacyClass, systemPrivacyClass, lookup, decide, hf, hn, hm, hk]
+  simp only [privacyClass, systemPrivacyClass, lookup, decide, defaultOf, hf, hn, hm, hk]
 
 /-- every cache entry is the answer the rules give, for every object of `U` with that name -/
 def CacheOk (rules : List Rule) (U : List Obj) (c : Cache) : Prop :=
@@ -952,13 +980,11 @@ theorem privacyClass_cached (rules : List Rule) (U : List Obj) (hU : Coherent U)
     (c : Cache) (hc : CacheOk rules U c) (ob : Obj) (hob : ob ∈ U) :
     (privacyClass rules c ob).1 = (privacyClass rules [] ob).1 ∧
       CacheOk rules U (privacyClass rules c ob).2 := by
-  by_cases hm : (ob.isModule && ob.name = mainName) = true
-  · simp [privacyClass, hm, hc]
-  · simp only [privacyClass, hm, if_false, Bool.false_eq_true]
+  · simp only [privacyClass]
     cases hl : lookup c ob.fullName with
     | some l =>
       have := hc _ l hl ob hob rfl
-      simp only [privacyClass, hm, if_false, Bool.false_eq_true] at this
+      simp only [privacyClass] at this
       simp only [systemPrivacyClass, hl]
       exact ⟨this.symm, hc⟩
     | none =>
@@ -982,7 +1008,7 @@ theorem privacyClass_cached (rules : List Rule) (U : List Obj) (hU : Coherent U)
               obtain ⟨h1, h2, h3⟩ := hU ob' hob' ob hob (by rw [hfn, he])
               rw [privacyClass_congr rules ob' ob (by rw [hfn, he]) h1 h2 h3]
               subst hlk
-              simp [privacyClass, hm, systemPrivacyClass, lookup, hk, hd]
+              simp [privacyClass, systemPrivacyClass, lookup, hk, hd]
             · simp [he] at hlk
 
 theorem run_cached (rules : List Rule) (U : List Obj) (hU : Coherent U) :
